@@ -25,7 +25,8 @@ Ev == T.events[pc + 1]
 NONE == 99
 
 \* C34: the byte limit is a property of files on disk, the character limit of any text given to a templater
-Over(f, e) == \/ e.kind = "path" /\ T.byte_limit > 0 /\ f.nbytes > T.byte_limit
+\* limits are per file: the effective configuration of a file includes the .sqlfluff next to it
+Over(f, e) == \/ e.kind = "path" /\ f.byte_limit > 0 /\ f.nbytes > f.byte_limit
               \/ T.char_limit > 0 /\ f.nchars > T.char_limit
 RunAt(e) == [usage |-> T.usage, cmd |-> T.cmd, feu |-> T.feu, nofail |-> T.nofail, skipfail |-> T.skipfail, limkind |-> "observed",
              files |-> [i \in 1..Len(T.files) |->
